@@ -182,7 +182,10 @@ func IsAny(err error, references ...error) bool {
 
 		// Recursively try multi-error causes, if applicable.
 		for _, me := range errbase.UnwrapMulti(c) {
-			if IsAny(me, references...) {
+			// A multi-cause error may list a nil cause: it matches nothing.
+			// (Recursing into it would answer "is some reference nil?",
+			// which is the answer for a nil error, not for this one.)
+			if me != nil && IsAny(me, references...) {
 				return true
 			}
 		}
